@@ -76,6 +76,7 @@ func (n *smpNet) pump(hook func(to *party, m []byte) [][]byte) {
 				_, ts, _, pan := n.w.recv(to, o)
 				if pan {
 					olog.viol("C12", "smp-panic", fmt.Sprintf("Receive panicked while handling SMP traffic (%.40q)", o))
+					olog.viol("C13", "receive-panics:smp", fmt.Sprintf("Receive panicked while handling SMP traffic (%.40q)", o))
 					return
 				}
 				n.note(to)
@@ -419,6 +420,7 @@ func (g *gen) smpDeviant(w *world) {
 				_, ts, _, pan := n.w.recv(to, o)
 				if pan {
 					olog.viol("C12", "smp-panic", fmt.Sprintf("Receive panicked on %s (OTRv%d)", what, version))
+					olog.viol("C13", "receive-panics:smp", fmt.Sprintf("Receive panicked on %s (OTRv%d)", what, version))
 					return nil
 				}
 				victimEv = append(victimEv, smpEvents(lastEvents)...)
@@ -463,6 +465,7 @@ func (g *gen) smpDeviant(w *world) {
 	n.pump(nil)
 	if w.dead {
 		olog.viol("C12", "smp-panic", fmt.Sprintf("a call panicked after %s", what))
+		olog.viol("C13", "receive-panics:smp", fmt.Sprintf("a call panicked after %s", what))
 		return
 	}
 	// recovery: abort whatever is left, then a fresh honest run must succeed
